@@ -1,6 +1,16 @@
-(* Proofs/IgnorePipes.v — the per-linter pipeline table claimed in Actual/IgnoreActual.v agrees with the generated list of
-   linter packages that reference the shared parser. *)
-From TL Require Import Lib.Base Gen.IgnoreGen Model.PyStr Model.Ignore Actual.IgnoreActual.
+(* Proofs/IgnorePipes.v — the per-linter pipelines claimed in Actual/IgnoreActual.v:
+   (1) the table agrees with the generated list of linter packages that reference the shared parser;
+   (2) a linter whose pipeline is the shared parser alone (nesting, srp, performance, dry, stringly-typed) suppresses exactly what
+       the specification says, on every file of the domain;
+   (3) file-header: violations found in an existing header are suppressed exactly as the specification says (the linter's own
+       file-level test and its custom needles add nothing on files of the domain); the "no header at all" violation honours the
+       file-level directives and nothing else;
+   (4) magic-numbers and print-statements in files with `#` comments (shared parser, then their generic same-line test or `# noqa`):
+       exactly the specification on every file of the domain that does not contain the word "noqa";
+   (5) collection-pipeline and stateless-class (shared parser, plus their own file-level and same-line tests over the lowered text):
+       exactly the specification on every file of the domain. *)
+From TL Require Import Lib.Base Lib.GenTypes Gen.IgnoreGen Model.PyStr Model.Ignore Model.IgnoreSpec Actual.IgnoreActual
+     Proofs.IgnoreStr Proofs.IgnoreStr2 Proofs.IgnoreLines Proofs.IgnoreFeat Proofs.IgnoreFeat2 Proofs.IgnoreMain Proofs.IgnoreRules.
 
 Lemma pipeline_table_consistent :
   forallb (fun p => smem p linter_packages && negb (smem p shared_parser_users)) (no_inline_support ++ own_line_check_only) = true
@@ -9,3 +19,453 @@ Lemma pipeline_table_consistent :
              ["magic_numbers"; "print_statements"; "nesting"; "srp"; "performance"; "collection_pipeline"; "stateless_class"] = true
   /\ forallb (fun p => negb (uses_shared (pipeline_of p "py"))) (no_inline_support ++ own_line_check_only) = true.
 Proof. vm_compute. repeat split; reflexivity. Qed.
+
+(* ---------- (2) shared parser only ---------- *)
+Lemma suppressed_shared q content v r : suppressed q PShared content v r = should_ignore q false content v r.
+Proof. unfold suppressed, suppressed_pre, should_ignore, should_ignore_lines. cbn [uses_shared extra_check andb orb]. apply orb_false_r. Qed.
+
+Theorem shared_pipeline_exact q a v r :
+  file_ok a = true -> target_ok a v = true -> nonempty r = true -> avoids q a = true ->
+  suppressed q PShared (render a) v r = spec false a v r.
+Proof. intros H T Hr A. rewrite suppressed_shared. now apply should_ignore_exact. Qed.
+
+(* the table: these packages are on the shared parser alone, whatever the language; all of them reference the shared parser in
+   the source; the two cross-file linters whose violation filters the translator shape-checks are among them *)
+Lemma shared_only_table :
+  forallb (fun p => smem p shared_parser_users) shared_only = true
+  /\ forallb (fun p => smem p shared_only) xfile_shared_filters = true.
+Proof. vm_compute. split; reflexivity. Qed.
+
+Lemma shared_only_pipeline pkg lang : In pkg shared_only -> pipeline_of pkg lang = PShared.
+Proof.
+  unfold shared_only. cbn [In]. intros [E|[E|[E|[E|[E|[]]]]]]; subst pkg; reflexivity.
+Qed.
+
+Theorem shared_only_linters_exact q pkg lang a v r : In pkg shared_only ->
+  file_ok a = true -> target_ok a v = true -> nonempty r = true -> avoids q a = true ->
+  suppressed q (pipeline_of pkg lang) (render a) v r = spec false a v r.
+Proof. intros Hin. rewrite (shared_only_pipeline pkg lang Hin). apply shared_pipeline_exact. Qed.
+
+(* ---------- (3) file-header ---------- *)
+(* the single occurrence, seen from the left: a needle x ++ k ++ y can only sit where x ends the text before the key word *)
+Lemma unique_occ_at k y q : forall p x, count_occ k (p ++ k ++ q) = 1 ->
+  prefixb (x ++ k ++ y) (p ++ k ++ q) = true -> p = x.
+Proof.
+  induction p as [|c p IH]; intros x Hc H.
+  - destruct x as [|d x]; [reflexivity|]. exfalso. cbn [append] in *.
+    assert (Htail : match (k ++ q)%string with EmptyString => 0 | String _ r => count_occ k r end = 0).
+    { rewrite count_occ_unfold in Hc. rewrite prefixb_app in Hc. lia. }
+    cbn [prefixb] in H. destruct (k ++ q)%string as [|e r] eqn:E; [discriminate|].
+    apply andb_true_iff in H as [_ H]. apply prefixb_sub in H. apply contains_count_pos in H. lia.
+  - cbn [append] in *. rewrite count_occ_unfold in Hc.
+    assert (Hpos : 1 <= count_occ k (p ++ k ++ q)) by (apply contains_count_pos, containsb_mid).
+    destruct (prefixb k (String c (p ++ k ++ q))) eqn:Ep; [lia|]. cbn [plus] in Hc.
+    destruct x as [|d x].
+    + cbn [append] in H. apply (prefixb_app_inv k y) in H. congruence.
+    + cbn [append prefixb] in H. apply andb_true_iff in H as [E H]. apply Ascii.eqb_eq in E. subst d. f_equal. now apply IH.
+Qed.
+
+Lemma unique_occ_prefix k y q : forall p x, count_occ k (p ++ k ++ q) = 1 ->
+  containsb (x ++ k ++ y) (p ++ k ++ q) = true -> exists p0, p = (p0 ++ x)%string.
+Proof.
+  induction p as [|c p IH]; intros x Hc H.
+  - rewrite containsb_unfold in H. apply orb_true_iff in H as [H|H].
+    + exists EmptyString. cbn [append]. exact (unique_occ_at k y q EmptyString x Hc H).
+    + exfalso. cbn [append] in *.
+      assert (Htail : match (k ++ q)%string with EmptyString => 0 | String _ r => count_occ k r end = 0).
+      { rewrite count_occ_unfold in Hc. rewrite prefixb_app in Hc. lia. }
+      destruct (k ++ q)%string as [|e r] eqn:E; [discriminate|].
+      apply containsb_sub in H. apply contains_count_pos in H. lia.
+  - rewrite containsb_unfold in H. apply orb_true_iff in H as [H|H].
+    + exists EmptyString. cbn [append]. exact (unique_occ_at k y q (String c p) x Hc H).
+    + cbn [append] in H, Hc. rewrite count_occ_unfold in Hc.
+      assert (Hpos : 1 <= count_occ k (p ++ k ++ q)) by (apply contains_count_pos, containsb_mid).
+      destruct (prefixb k (String c (p ++ k ++ q))) eqn:Ep; [lia|]. cbn [plus] in Hc.
+      destruct (IH x Hc H) as [p0 E]. exists (String c p0). cbn [append]. now rewrite E.
+Qed.
+
+(* a needle x ++ "ignore" ++ y is absent from a directive line unless x ends the text before its key word *)
+Lemma needle_absent_pre l x y : line_ok l = true -> directive l = true ->
+  suffixb x (lower (pre_of l)) = false -> containsb (x ++ K ++ y) (lower (render_line l)) = false.
+Proof.
+  intros H D Hx. rewrite (lower_render l D).
+  destruct (containsb (x ++ K ++ y) (lower (pre_of l) ++ K ++ lower (post_of l))) eqn:E; [|reflexivity].
+  apply unique_occ_prefix in E; [|now apply once]. destruct E as [p0 E]. rewrite E, suffixb_app in Hx. discriminate.
+Qed.
+
+(* the text before the key word of a rendered directive ends with "thailint: ", never with "thailint-" *)
+Lemma pre_no_dash l : line_ok l = true -> directive l = true -> suffixb "# thailint-" (lower (pre_of l)) = false.
+Proof.
+  intros H D. rewrite (lower_pre l H).
+  destruct l as [c|c st n|ind st n|ind st br n|ind st|st n]; try discriminate; unfold suffixb, tagged;
+    rewrite ?srev_app_distr; destruct st; reflexivity.
+Qed.
+
+(* none of file-header's custom needles occurs on a line of the domain *)
+Lemma fh_custom_absent l y : line_ok l = true -> containsb ("# thailint-" ++ K ++ y) (lower (render_line l)) = false.
+Proof.
+  intro H. destruct (directive l) eqn:D.
+  - apply needle_absent_pre; [exact H|exact D|now apply pre_no_dash].
+  - destruct l; try discriminate. cbn [line_ok] in H. unfold code_ok in H. apply andb_true_iff in H as [Hk _].
+    cbn [render_line]. now apply plain_no_needle.
+Qed.
+
+Lemma fh_needles_keyed :
+  nth_str 0 fh_needles = ("# thailint-" ++ K ++ "-file:")%string /\ nth_str 1 fh_needles = ("# thailint-" ++ K ++ "")%string
+  /\ nth_str 2 fh_needles = ("# thailint-" ++ K ++ "-line:")%string.
+Proof. repeat split; reflexivity. Qed.
+
+Lemma general_ignore_named st t : check_general_ignore (render_line (LFile st (Names t))) = false.
+Proof.
+  unfold check_general_ignore. change general_ignore_needle with "ignore-file[". apply negb_false_iff.
+  cbn [render_line names_br]. apply containsb_app_r.
+  change (" thailint: ignore-file" ++ "[" ++ t ++ "]")%string with (" thailint: " ++ "ignore-file[" ++ (t ++ "]"))%string.
+  apply containsb_mid.
+Qed.
+
+(* FileHeaderRule's file-level test on one line of the domain: a file-level directive naming the rule, nothing else *)
+Lemma fh_line_feature q l r : line_ok l = true -> nonempty r = true ->
+  fh_file_line q fh_needles (render_line l) r = match l with LFile _ n => named (bracket_rules n) r | _ => false end.
+Proof.
+  intros H Hr. unfold fh_file_line. destruct fh_needles_keyed as (E0 & E1 & _). rewrite E0, E1.
+  rewrite !(fh_custom_absent l _ H), !orb_false_r, (file_marker_feature q l H).
+  destruct l as [c|c st n|ind st n|ind st br n|ind st|st n]; try reflexivity.
+  cbn [andb]. cbn [line_ok] in H. rewrite (file_rules_feature q st n r H).
+  destruct n as [|t]; [reflexivity|]. rewrite general_ignore_named. apply orb_false_r.
+Qed.
+
+Lemma fh_file_level_exact q a r : file_ok a = true -> nonempty r = true ->
+  fh_file_level q fh_needles (map (prepare q) (map render_line a)) r = spec_file a r.
+Proof.
+  intros H Hr. unfold fh_file_level, spec_file. change header_scan_lines with 10. change documented_header_lines with 10.
+  rewrite !firstn_map. pose proof (forallb_firstn line_ok 10 a H) as H'.
+  induction (firstn 10 a) as [|l ls IH]; [reflexivity|].
+  cbn [forallb] in H'. apply andb_true_iff in H' as [Hl H'].
+  cbn [map existsb prepare pl_text]. rewrite (fh_line_feature q l r Hl Hr), (IH H'). reflexivity.
+Qed.
+
+(* the custom same-line needle never occurs on the violation's line *)
+Lemma fh_line_needle_absent q a v : file_ok a = true ->
+  match line_lower (map (prepare q) (map render_line a)) v with Some l => containsb (nth_str 2 fh_needles) l | None => false end = false.
+Proof.
+  intro H. unfold line_lower. destruct ((v =? 0) || (List.length (map (prepare q) (map render_line a)) <? v)); [reflexivity|].
+  rewrite nth_error_prepared. destruct (nth_error a (v - 1)) as [l|] eqn:E; [|reflexivity].
+  cbn [option_map prepare pl_text]. destruct fh_needles_keyed as (_ & _ & E2). rewrite E2.
+  apply fh_custom_absent. exact (forallb_nth line_ok a (v - 1) l H E).
+Qed.
+
+(* the "no header at all" violation: file-level directives in the header window, and nothing else, whatever line it is reported on *)
+Theorem file_header_missing_exact q a v r :
+  file_ok a = true -> nonempty r = true -> avoids q a = true ->
+  suppressed q (PFileHeader fh_needles false) (render a) v r = spec_file a r.
+Proof.
+  intros H Hr A. unfold suppressed, suppressed_pre. cbn [uses_shared andb orb extra_check].
+  unfold avoids in A. rewrite (lines_of_render q a H A), (fh_file_level_exact q a r H Hr). apply orb_false_r.
+Qed.
+
+(* violations found in an existing header: exactly the specification *)
+Theorem file_header_filtered_exact q a v r :
+  file_ok a = true -> target_ok a v = true -> nonempty r = true -> avoids q a = true ->
+  suppressed q (PFileHeader fh_needles true) (render a) v r = spec false a v r.
+Proof.
+  intros H T Hr A. pose proof (should_ignore_exact q false a v r H T Hr A) as S.
+  unfold should_ignore, should_ignore_lines in S. cbn [orb] in S.
+  unfold suppressed, suppressed_pre. cbn [uses_shared andb extra_check]. rewrite S.
+  unfold avoids in A. rewrite (lines_of_render q a H A), (fh_file_level_exact q a r H Hr), (fh_line_needle_absent q a v H).
+  unfold spec. cbn [orb]. destruct (spec_file a r); [now rewrite ?orb_true_r|]. cbn [orb]. now rewrite orb_false_r.
+Qed.
+
+Lemma file_header_table lang :
+  pipeline_of "file_header" lang = PFileHeader fh_needles true /\ pipeline_of "file_header_missing" lang = PFileHeader fh_needles false.
+Proof. split; reflexivity. Qed.
+
+(* ---------- (4) magic-numbers / print-statements in `#` files: the generic same-line test ---------- *)
+Lemma after_first_none n s : containsb n s = false -> after_first n s = None.
+Proof.
+  induction s as [|c s IH]; intro H; rewrite containsb_unfold in H; apply orb_false_iff in H as [H1 H2]; cbn [after_first]; rewrite H1.
+  - reflexivity.
+  - now apply IH.
+Qed.
+
+(* the text after the first occurrence of x ++ k, when k occurs once and x ends the text before it *)
+Lemma after_first_unique k q x : forall p0, count_occ k ((p0 ++ x) ++ k ++ q) = 1 ->
+  after_first (x ++ k) ((p0 ++ x) ++ k ++ q) = Some q.
+Proof.
+  induction p0 as [|c p0 IH]; intro Hc.
+  - cbn [append].
+    assert (P : prefixb (x ++ k) (x ++ k ++ q) = true) by (rewrite <- sapp_assoc; apply prefixb_app).
+    destruct (x ++ k ++ q)%string as [|d r] eqn:E.
+    + cbn [after_first]. rewrite P. destruct x; destruct k; cbn in E; try discriminate. destruct q; [reflexivity|discriminate].
+    + cbn [after_first]. rewrite P. rewrite <- E, <- sapp_assoc. now rewrite sdrop_app.
+  - cbn [append] in *. cbn [after_first].
+    assert (N : prefixb (x ++ k) (String c ((p0 ++ x) ++ k ++ q)) = false).
+    { destruct (prefixb (x ++ k) (String c ((p0 ++ x) ++ k ++ q))) eqn:E; [|reflexivity]. exfalso.
+      assert (E' : prefixb (x ++ k ++ "") (String c (p0 ++ x) ++ k ++ q) = true) by (rewrite sapp_nil_r; exact E).
+      apply (unique_occ_at k "" q (String c (p0 ++ x)) x Hc) in E'.
+      apply (f_equal String.length) in E'. cbn [String.length] in E'. rewrite slen_app in E'. lia. }
+    rewrite N. apply IH.
+    rewrite count_occ_unfold in Hc.
+    assert (Hpos : 1 <= count_occ k ((p0 ++ x) ++ k ++ q)) by (apply contains_count_pos, containsb_mid).
+    destruct (prefixb k (String c ((p0 ++ x) ++ k ++ q))); [lia|]. exact Hc.
+Qed.
+
+Lemma suffix_split x p : suffixb x p = true -> exists p0, p = (p0 ++ x)%string.
+Proof.
+  unfold suffixb. intro Hx.
+  exists (srev (sdrop (String.length (srev x)) (srev p))).
+  rewrite <- (srev_involutive x) at 2. rewrite <- srev_app_distr.
+  rewrite <- (srev_involutive p) at 1. f_equal.
+  rewrite <- (stake_sdrop (String.length (srev x)) (srev p)) at 1. f_equal.
+  revert Hx. generalize (srev x) as a, (srev p) as b. clear.
+  induction a as [|c a IH]; intros b H; [reflexivity|].
+  destruct b as [|d b]; cbn [prefixb] in H; [discriminate|]. apply andb_true_iff in H as [E H].
+  apply Ascii.eqb_eq in E. subst d. cbn [String.length stake]. now rewrite (IH b H).
+Qed.
+
+Lemma after_first_directive l x : line_ok l = true -> directive l = true ->
+  after_first (x ++ K) (lower (render_line l)) = if suffixb x (lower (pre_of l)) then Some (lower (post_of l)) else None.
+Proof.
+  intros H D. destruct (suffixb x (lower (pre_of l))) eqn:Hx.
+  - rewrite (lower_render l D). destruct (suffix_split _ _ Hx) as [p0 E]. pose proof (once l H D) as O. rewrite E in *.
+    now apply after_first_unique.
+  - apply after_first_none. rewrite <- (sapp_nil_r (x ++ K)), sapp_assoc. now apply needle_absent_pre.
+Qed.
+
+(* files without the word "noqa" (the linters' other, non-thailint suppression comment) *)
+Definition noqa_free (a : list aline) : bool := forallb (fun l => negb (containsb "noqa" (lower (render_line l)))) a.
+
+Lemma noqa_absent a k l x : noqa_free a = true -> nth_error a k = Some l -> containsb (x ++ "noqa") (lower (render_line l)) = false.
+Proof.
+  intros N E. pose proof (forallb_nth _ a k l N E) as Hl. cbn beta in Hl. apply negb_true_iff in Hl.
+  rewrite <- (sapp_nil_r (x ++ "noqa")), sapp_assoc. now apply containsb_false_sub.
+Qed.
+
+(* what the generic `#` test of magic-numbers / print-statements says on a line of the domain: a bare same-line `#` directive *)
+Definition generic_line (l : aline) : bool := match l with LSame _ Hash Bare => true | _ => false end.
+
+Lemma tagged_suffix X st : suffixb "# thailint: " (X ++ tagged st) = match st with Hash => true | Slashes => false end.
+Proof.
+  destruct st.
+  - exact (suffixb_app X "# thailint: ").
+  - unfold suffixb, tagged. rewrite srev_app_distr. reflexivity.
+Qed.
+
+Lemma generic_hash_feature a k l : noqa_free a = true -> nth_error a k = Some l -> line_ok l = true -> is_code l = true ->
+  generic_hash magic_generic_hash noqa_hash (lower (render_line l)) = generic_line l.
+Proof.
+  intros N E H C. unfold generic_hash.
+  change (nth_str 0 magic_generic_hash) with ("# thailint: " ++ K)%string. change (nth_str 1 magic_generic_hash) with "#".
+  change (nth_str 2 magic_generic_hash) with "[". change noqa_hash with ("# " ++ "noqa")%string.
+  rewrite (noqa_absent a k l "# " N E).
+  destruct l as [c|c st n|ind st n|ind st br n|ind st|st n]; try discriminate.
+  - cbn [line_ok] in H. unfold code_ok in H. apply andb_true_iff in H as [Hk _]. cbn [render_line generic_line].
+    rewrite after_first_none; [reflexivity|]. rewrite <- (sapp_nil_r ("# thailint: " ++ K)), sapp_assoc. now apply plain_no_needle.
+  - rewrite (after_first_directive _ "# thailint: " H eq_refl), (lower_pre _ H), tagged_suffix.
+    destruct st; [|reflexivity]. rewrite lower_post, lower_names_br. destruct n as [|t]; reflexivity.
+Qed.
+
+(* the pipeline of magic-numbers and print-statements in files with `#` comments *)
+Lemma generic_tables lang : String.eqb lang "ts" = false ->
+  pipeline_of "magic_numbers" lang = PSharedGeneric magic_generic_hash /\ pipeline_of "print_statements" lang = PSharedGeneric print_generic_hash /\ print_generic_hash = magic_generic_hash.
+Proof. intro E. unfold pipeline_of. cbn [String.eqb Ascii.eqb Bool.eqb andb]. rewrite E. repeat split; reflexivity. Qed.
+
+Theorem generic_hash_pipeline_exact q a v r :
+  file_ok a = true -> target_ok a v = true -> nonempty r = true -> avoids q a = true -> noqa_free a = true ->
+  suppressed q (PSharedGeneric magic_generic_hash) (render a) v r = spec false a v r.
+Proof.
+  intros H T Hr A N. pose proof (should_ignore_exact q false a v r H T Hr A) as Sx.
+  unfold should_ignore, should_ignore_lines in Sx. cbn [orb] in Sx.
+  unfold suppressed, suppressed_pre. cbn [uses_shared andb extra_check]. rewrite Sx.
+  unfold avoids in A. rewrite (lines_of_render q a H A).
+  unfold target_ok in T. destruct v as [|k]; [discriminate|]. destruct (nth_error a k) as [l|] eqn:E; [|discriminate].
+  assert (Lk : k < List.length a) by (apply nth_error_Some; congruence).
+  unfold line_lower. rewrite !map_length.
+  change (S k =? 0) with false. assert (E1 : (List.length a <? S k) = false) by (apply Nat.ltb_ge; lia). rewrite E1. cbn [orb].
+  cbn [Nat.sub]. rewrite Nat.sub_0_r, nth_error_prepared, E. cbn [option_map prepare pl_text].
+  rewrite (generic_hash_feature a k l N E (forallb_nth _ _ _ _ H E) T).
+  destruct (generic_line l) eqn:G; [|apply orb_false_r].
+  destruct l as [c|c st n|ind st n|ind st br n|ind st|st n]; try discriminate. destruct st; try discriminate. destruct n; try discriminate.
+  unfold spec, spec_same. rewrite E. cbn [bracket_rules named]. now rewrite !orb_true_r.
+Qed.
+
+(* ---------- (5) collection-pipeline / stateless-class: their own file-level and same-line tests ---------- *)
+(* str.lower touches the ASCII capitals only: every byte test of the string runtime is blind to it *)
+Ltac bytes c := destruct c as [[] [] [] [] [] [] [] []]; reflexivity.
+Lemma ws1_lower c : ws1 (lower_ascii c) = ws1 c. Proof. bytes c. Qed.
+Lemma ws_e280_lower c : ws_e280 (lower_ascii c) = ws_e280 c. Proof. bytes c. Qed.
+Lemma is_lower_const c :
+  forallb (fun k => Bool.eqb (is k (lower_ascii c)) (is k c)) [c10; c13; c44; c93; c128; c129; c133; c154; c159; c160; c194; c225; c226; c227] = true.
+Proof. bytes c. Qed.
+Lemma is_lower k c : In k [c10; c13; c44; c93; c128; c129; c133; c154; c159; c160; c194; c225; c226; c227] -> is k (lower_ascii c) = is k c.
+Proof. intro H. pose proof (is_lower_const c) as F. rewrite forallb_forall in F. apply F in H. now apply eqb_prop in H. Qed.
+Ltac isl := rewrite ?ws1_lower, ?ws_e280_lower, ?(is_lower c10), ?(is_lower c13), ?(is_lower c44), ?(is_lower c93), ?(is_lower c128), ?(is_lower c129),
+  ?(is_lower c133), ?(is_lower c154), ?(is_lower c159), ?(is_lower c160), ?(is_lower c194), ?(is_lower c225), ?(is_lower c226), ?(is_lower c227) by (cbn; tauto).
+
+Lemma ws_len_lower s : ws_len (lower s) = ws_len s.
+Proof. destruct s as [|c [|d [|e r]]]; cbn [lower ws_len]; isl; reflexivity. Qed.
+Lemma ws_len_rev_lower s : ws_len_rev (lower s) = ws_len_rev s.
+Proof. destruct s as [|c [|d [|e r]]]; cbn [lower ws_len_rev]; isl; reflexivity. Qed.
+
+Lemma lstrip_fuel_lower : forall fuel s, lstrip_fuel fuel (lower s) = lower (lstrip_fuel fuel s).
+Proof.
+  induction fuel as [|f IH]; intro s; cbn [lstrip_fuel]; [reflexivity|]. rewrite ws_len_lower.
+  destruct (ws_len s); [reflexivity|]. now rewrite <- lower_sdrop, IH.
+Qed.
+Lemma lstrip_rev_fuel_lower : forall fuel s, lstrip_rev_fuel fuel (lower s) = lower (lstrip_rev_fuel fuel s).
+Proof.
+  induction fuel as [|f IH]; intro s; cbn [lstrip_rev_fuel]; [reflexivity|]. rewrite ws_len_rev_lower.
+  destruct (ws_len_rev s); [reflexivity|]. now rewrite <- lower_sdrop, IH.
+Qed.
+Lemma lower_srev_app : forall s acc, lower (srev_app s acc) = srev_app (lower s) (lower acc).
+Proof. induction s as [|c s IH]; intro acc; cbn [srev_app lower]; [reflexivity|]. now rewrite IH. Qed.
+Lemma lower_srev s : lower (srev s) = srev (lower s).
+Proof. unfold srev. now rewrite lower_srev_app. Qed.
+Lemma strip_lower s : strip (lower s) = lower (strip s).
+Proof.
+  unfold strip, rstrip, lstrip. rewrite !lower_length, lstrip_fuel_lower, lower_length.
+  now rewrite <- lower_srev, lstrip_rev_fuel_lower, lower_srev.
+Qed.
+
+Lemma split_char_aux_lower : forall s cur, split_char_aux c44 (lower s) (lower cur) = map lower (split_char_aux c44 s cur).
+Proof.
+  induction s as [|c s IH]; intro cur; cbn [lower split_char_aux map].
+  - now rewrite lower_srev.
+  - change (Ascii.eqb (lower_ascii c) c44) with (is c44 (lower_ascii c)). change (Ascii.eqb c c44) with (is c44 c). isl.
+    destruct (is c44 c); cbn [map].
+    + rewrite lower_srev. f_equal. exact (IH EmptyString).
+    + exact (IH (String c cur)).
+Qed.
+Lemma split_comma_lower s : split_on "," (lower s) = map lower (split_on "," s).
+Proof. exact (split_char_aux_lower s EmptyString). Qed.
+
+Lemma all_chars_lower (p : ascii -> bool) t : (forall c, p (lower_ascii c) = p c) -> all_chars p (lower t) = all_chars p t.
+Proof. intro Hp. induction t as [|c t IH]; cbn [lower all_chars]; [reflexivity|]. now rewrite Hp, IH. Qed.
+
+Lemma names_ok_lower t : names_ok (Names t) = true -> names_ok (Names (lower t)) = true.
+Proof.
+  cbn [names_ok]. unfold kfree, no_newline. rewrite lower_idem.
+  rewrite (all_chars_lower (fun c => negb (is c10 c) && negb (is c13 c))) by (intro c; isl; reflexivity).
+  rewrite (all_chars_lower (fun c => negb (is c93 c))) by (intro c; isl; reflexivity).
+  destruct t; [discriminate|]. exact (fun H => H).
+Qed.
+Lemma code_ok_lower c : code_ok c = true -> code_ok (lower c) = true.
+Proof.
+  unfold code_ok, kfree, no_newline. rewrite lower_idem.
+  now rewrite (all_chars_lower (fun c => negb (is c10 c) && negb (is c13 c))) by (intro x; isl; reflexivity).
+Qed.
+
+(* the lowered entries of a lowered bracket list name what the entries of the list name *)
+Lemma tl_entries_named t r :
+  existsb (fun x => rule_matches r (lower (strip x))) (split_on "," (lower t)) = named (bracket_rules (Names t)) r.
+Proof.
+  unfold named, bracket_rules. rewrite split_comma_lower, !existsb_map.
+  induction (split_on "," t) as [|x L IH]; [reflexivity|]. cbn [existsb]. rewrite IH. f_equal.
+  rewrite strip_lower, lower_idem. apply rule_matches_any_case; [reflexivity|apply lower_idem].
+Qed.
+
+(* --- the file-level test on one line of the domain --- *)
+Lemma suffixb_nil s : suffixb "" s = true.
+Proof. unfold suffixb. apply prefixb_nil. Qed.
+
+Lemma tl_needles_keyed :
+  nth_str 0 tl_needles = ("thailint: " ++ K ++ "-file")%string /\ nth_str 1 tl_needles = ("" ++ K ++ "-file[")%string
+  /\ nth_str 2 tl_needles = "ignore-file" /\ nth_str 3 tl_needles = "thailint:" /\ nth_str 4 tl_needles = ("" ++ K ++ "")%string
+  /\ nth_str 5 tl_needles = ("" ++ K ++ "[")%string /\ nth_str 6 tl_needles = "ignore".
+Proof. repeat split; reflexivity. Qed.
+
+Lemma tag_suffix X st : suffixb "thailint: " (X ++ tagged st) = true.
+Proof.
+  destruct st.
+  - change (X ++ tagged Hash)%string with (X ++ "# " ++ "thailint: ")%string. rewrite <- sapp_assoc. apply suffixb_app.
+  - change (X ++ tagged Slashes)%string with (X ++ "// " ++ "thailint: ")%string. rewrite <- sapp_assoc. apply suffixb_app.
+Qed.
+
+Lemma pre_tag l : line_ok l = true -> directive l = true -> suffixb "thailint: " (lower (pre_of l)) = true.
+Proof.
+  intros H D. rewrite (lower_pre l H).
+  destruct l as [c|c st n|ind st n|ind st br n|ind st|st n]; try discriminate; try apply tag_suffix.
+  exact (tag_suffix "" st).
+Qed.
+
+(* collection-pipeline's / stateless-class's file-level test on one line of the domain *)
+Lemma tl_file_feature l r : line_ok l = true ->
+  tl_file_directive tl_needles (render_line l) r = match l with LFile _ n => named (bracket_rules n) r | _ => false end.
+Proof.
+  intro H. unfold tl_file_directive. cbv zeta. destruct tl_needles_keyed as (E0 & E1 & E2 & _). rewrite E0, E1, E2.
+  destruct (directive l) eqn:D.
+  2:{ destruct l; try discriminate. cbn [line_ok] in H. unfold code_ok in H. apply andb_true_iff in H as [Hk _]. cbn [render_line].
+      now rewrite (plain_no_needle _ "thailint: " "-file" Hk). }
+  destruct l as [c|c st n|ind st n|ind st br n|ind st|st n]; try discriminate.
+  1-4: rewrite needle_absent; [reflexivity|assumption|reflexivity|post_head].
+  rewrite (needle_present (LFile st n) "thailint: " "-file" eq_refl (pre_tag (LFile st n) H eq_refl)) by (rewrite lower_post; apply prefixb_app).
+  cbn [andb]. destruct n as [|t].
+  - rewrite needle_absent; [reflexivity|assumption|reflexivity|post_head].
+  - rewrite (needle_present (LFile st (Names t)) "" "-file[" eq_refl (suffixb_nil _)) by (rewrite lower_post, lower_names_br; reflexivity).
+    cbn [negb orb]. unfold tl_rules_match.
+    cbn [line_ok] in H. pose proof (names_ok_lower t H) as H'.
+    assert (L : lower (render_line (LFile st (Names t))) = render_line (LFile st (Names (lower t)))).
+    { cbn [render_line names_br]. rewrite !lower_app, lower_cm. reflexivity. }
+    rewrite L, (bracket_at (LFile st (Names (lower t))) false "ignore-file" H' eq_refl eq_refl).
+    destruct (names_parts _ H') as (Hne & _ & Hb).
+    change ("ignore" ++ post_of (LFile st (Names (lower t))))%string with ("ignore-file" ++ "[" ++ lower t ++ "]")%string.
+    rewrite (bracket_hit false "ignore-file" (lower t) eq_refl Hne Hb). apply tl_entries_named.
+Qed.
+
+(* ... and their same-line test on a (lowered) code line of the domain *)
+Lemma tl_line_feature l r : line_ok l = true -> is_code l = true ->
+  tl_line_directive tl_needles (lower (render_line l)) r = match l with LSame _ _ n => named (bracket_rules n) r | _ => false end.
+Proof.
+  intros H C. unfold tl_line_directive. destruct tl_needles_keyed as (_ & _ & _ & E3 & E4 & E5 & E6). rewrite E3, E4, E5, E6.
+  destruct l as [c|c st n|ind st n|ind st br n|ind st|st n]; try discriminate.
+  - cbn [line_ok] in H. unfold code_ok in H. apply andb_true_iff in H as [Hk _]. cbn [render_line].
+    now rewrite (plain_no_needle _ "" "" Hk), andb_false_r.
+  - assert (T : containsb "thailint:" (lower (render_line (LSame c st n))) = true).
+    { cbn [render_line]. rewrite !lower_app, lower_cm. apply containsb_app_r, containsb_app_r, containsb_app_r.
+      apply containsb_app_l. change (lower " thailint: ignore") with (" " ++ "thailint:" ++ " ignore")%string. apply containsb_mid. }
+    rewrite T, (needle_present (LSame c st n) "" "" eq_refl (suffixb_nil _) (prefixb_nil _)). cbn [andb].
+    destruct n as [|t].
+    + rewrite needle_absent; [reflexivity|assumption|reflexivity|post_head].
+    + rewrite (needle_present (LSame c st (Names t)) "" "[" eq_refl (suffixb_nil _)) by (rewrite lower_post, lower_names_br; reflexivity).
+      cbn [negb orb]. unfold tl_rules_match.
+      cbn [line_ok] in H. apply andb_true_iff in H as [Hc Hn]. pose proof (names_ok_lower t Hn) as Hn'.
+      assert (H' : line_ok (LSame (lower c) st (Names (lower t))) = true) by (cbn [line_ok]; now rewrite (code_ok_lower c Hc), Hn').
+      assert (L : lower (render_line (LSame c st (Names t))) = render_line (LSame (lower c) st (Names (lower t)))).
+      { cbn [render_line names_br]. rewrite !lower_app, lower_cm. reflexivity. }
+      rewrite L, (bracket_at _ false "ignore" H' eq_refl eq_refl).
+      destruct (names_parts _ Hn') as (Hne & _ & Hb).
+      change ("ignore" ++ post_of (LSame (lower c) st (Names (lower t))))%string with ("ignore" ++ "[" ++ lower t ++ "]")%string.
+      rewrite (bracket_hit false "ignore" (lower t) eq_refl Hne Hb). apply tl_entries_named.
+Qed.
+
+Lemma tl_file_level_exact q a r : file_ok a = true ->
+  existsb (fun l => tl_file_directive tl_needles (pl_text l) r) (firstn header_scan_lines (map (prepare q) (map render_line a))) = spec_file a r.
+Proof.
+  intros H. unfold spec_file. change header_scan_lines with 10. change documented_header_lines with 10.
+  rewrite !firstn_map. pose proof (forallb_firstn line_ok 10 a H) as H'.
+  induction (firstn 10 a) as [|l ls IH]; [reflexivity|].
+  cbn [forallb] in H'. apply andb_true_iff in H' as [Hl H'].
+  cbn [map existsb prepare pl_text]. rewrite (tl_file_feature l r Hl), (IH H'). reflexivity.
+Qed.
+
+Theorem tl_pipeline_exact q a v r :
+  file_ok a = true -> target_ok a v = true -> nonempty r = true -> avoids q a = true ->
+  suppressed q (PSharedTl tl_needles) (render a) v r = spec false a v r.
+Proof.
+  intros H T Hr A. pose proof (should_ignore_exact q false a v r H T Hr A) as Sx.
+  unfold should_ignore, should_ignore_lines in Sx. cbn [orb] in Sx.
+  unfold suppressed, suppressed_pre. cbn [uses_shared andb extra_check]. rewrite Sx.
+  unfold avoids in A. rewrite (lines_of_render q a H A), (tl_file_level_exact q a r H).
+  unfold target_ok in T. destruct v as [|k]; [discriminate|]. destruct (nth_error a k) as [l|] eqn:E; [|discriminate].
+  assert (Lk : k < List.length a) by (apply nth_error_Some; congruence).
+  unfold line_lower. rewrite !map_length.
+  change (S k =? 0) with false. assert (E1 : (List.length a <? S k) = false) by (apply Nat.ltb_ge; lia). rewrite E1. cbn [orb].
+  cbn [Nat.sub]. rewrite Nat.sub_0_r, nth_error_prepared, E. cbn [option_map prepare pl_text].
+  rewrite (tl_line_feature l r (forallb_nth _ _ _ _ H E) T).
+  unfold spec, spec_same. rewrite E. cbn [orb].
+  destruct (spec_file a r); cbn [orb]; [now rewrite ?orb_true_r|].
+  destruct l as [c|c st n|ind st n|ind st br n|ind st|st n]; try discriminate; [now rewrite !orb_false_r|].
+  destruct (named (bracket_rules n) r); [now rewrite !orb_true_r|now rewrite !orb_false_r].
+Qed.
+
+Lemma tl_table lang : pipeline_of "collection_pipeline" lang = PSharedTl tl_needles /\ pipeline_of "stateless_class" lang = PSharedTl tl_needles.
+Proof. split; reflexivity. Qed.
